@@ -123,6 +123,13 @@ def bases(tier):
         n_["extras"] = [["xml:space", True], ["p:n", 3]]
     g_["ns"] = [["p", "urn:u1"]]
     out.append(("non-text-attribute-values+contentless-paras", gtree.assign_ids(g_), 3))
+    root_ = metapype_io.from_xml('<doc xmlns="http://example.org/default" xmlns:p="urn:p"><a p:k="v">t</a><b><c/>u</b></doc>')
+    out.append(("default-namespace-on-root", gtree.assign_ids(gspec_of(root_)), 3))
+    core.reset_store()
+    g_ = from_listspec(["eml", None, {"packageId": "p.1.1", "system": "s"},
+                        [["dataset", None, {}, [["title", "one two three", {}, []], ["creator", None, {}, [["organizationName", "O", {}, []]]]]]]])
+    g_["orphan_links"] = True          # children listed through the children property: no back links
+    out.append(("children-without-parent-links", gtree.assign_ids(g_), 3))
     # invalid trees (validators take their error branches)
     out.append(("invalid:unknown", gtree.assign_ids(from_listspec(
         ["dataset", "oops", {"zz": "1"}, [["zzUnknown", "x", {}, [["title", None, {}, []]]], ["title", None, {}, []],
@@ -156,6 +163,9 @@ class Ctx:
     def __init__(self, g):
         core.reset_store()
         self.root = gtree.build(g)
+        if g.get("orphan_links"):
+            for n_ in gtree.preorder(self.root)[1:]:
+                n_.parent = None
         if g.get("shadow"):
             # the registry does not point at this tree's nodes: a clone with the same ids was loaded afterwards, and one
             # node was taken out of the registry; read-only operations must leave the registry exactly like that
